@@ -158,6 +158,9 @@ func genC02(r *Rand, tier string, ord int) *Trial {
 	if r.P(0.35) {
 		sp.MaxRecs = 1
 	}
+	if tier == "thorough" && !many && r.P(0.05) {
+		sp.L = r.Range(51, 400) // deeper bound on the reference length in the thorough tier
+	}
 	sc := genSam(r, sp)
 	o := Opts{Wrap: -1, Start: -1, End: -1, Threads: 1, OutDir: r.Pick("stdout", "stdout", "pairs")}
 	o.OmitIns = r.P(0.3)
